@@ -82,6 +82,16 @@ def Convert2Num(text):
     raise ValueError("Expected Number got '{0}'".format(text))
     # return None
 
+def Convert2RealNum(text):
+    """converts text to python type in order
+       Int, hex, Float
+       ValueError if can't (a complex number is not accepted)
+    """
+    value = Convert2Num(text)
+    if isinstance(value, complex):
+        raise ValueError("Expected real Number got '{0}'".format(text))
+    return value
+
 def Convert2CoordNum(text):
     """converts text to python type in order
        FracDeg, Int, hex, Float, Complex
@@ -1301,7 +1311,7 @@ class Builder(object):
                 index += 1
 
                 if connective == 'at':
-                    period = max(0.0, Convert2Num(tokens[index]))
+                    period = max(0.0, Convert2RealNum(tokens[index]))
                     index +=1
 
                 elif connective == 'be':
@@ -2895,7 +2905,7 @@ class Builder(object):
                 if connective in ['at']:
                     # parse period direct or indirect
                     try:  #parse direct
-                        period = max(0.0, Convert2Num(tokens[index]))  # period is number
+                        period = max(0.0, Convert2RealNum(tokens[index]))  # period is number
                         index += 1  # eat token
 
                     except ValueError:  # parse indirect
